@@ -1,4 +1,5 @@
-(** C03 — correspondence cases.  One case = one multi-treap history over one of the two item kinds, the
+(** C03 — correspondence cases.  One case = one multi-treap history over one of the three item kinds
+    (0: lazy add + sum; 1: assign-or-add + sum; 2: lazy add + positional hash, an order-sensitive aggregate), the
     priorities that node creation consumed, and every output the implementation produced.
     [model_check]: the outputs are those of the tree model.  [spec_check]: the outputs are those of the
     list-of-lists specification ([srun], which never mentions a tree). *)
@@ -35,6 +36,19 @@ Definition run1 (ps : list Z) (ops : list cop) :=
 Definition srun0 (ops : list cop) := srun ix Z.add zsum [] (map to_op0 ops).
 Definition srun1 (ops : list cop) := srun ax amod_act zsum [] (map to_op1 ops).
 
+(** kind 2: modifications are additions (as for kind 0); the aggregate of the model and of the specification
+    is the triple (hash, hB^n, hash of ones); the executor prints the hash, so outputs are projected on it *)
+Definition to_op2 := conv ihs_mk md0.
+Definition run2 (ps : list Z) (ops : list cop) :=
+  run ihs_update ihs_push hsz ihs_modify hx ihs_agg [] ps (map to_op2 ops).
+Definition srun2 (ops : list cop) := srun hx Z.add hashagg [] (map to_op2 ops).
+Definition proj_out (o : @output Z (Z * Z * Z)) : out :=
+  match o with
+  | OInvalid => OInvalid | OUnit => OUnit | OPanic => OPanic | OElem e => OElem e | OList l => OList l
+  | OSize n => OSize n | ORemoved v => ORemoved v
+  | OAgg a => OAgg (option_map (fun t => fst (fst t)) a)
+  end.
+
 Definition out_eqb (a b : out) : bool :=
   match a, b with
   | OInvalid, OInvalid | OUnit, OUnit | OPanic, OPanic => true
@@ -50,11 +64,16 @@ Definition out_eqb (a b : out) : bool :=
 Inductive case := Case (kind : nat) (ops : list cop) (prios : list Z) (obs : option (list out)).
 
 Definition model_outputs (kind : nat) (ps : list Z) (ops : list cop) : list out :=
-  match kind with O => snd (run0 ps ops) | _ => snd (run1 ps ops) end.
+  match kind with
+  | O => snd (run0 ps ops)
+  | S O => snd (run1 ps ops)
+  | _ => map proj_out (snd (run2 ps ops))
+  end.
 Definition spec_outputs (kind : nat) (ops : list cop) : option (list out) :=
   match kind with
   | O => option_map snd (srun0 ops)
-  | _ => option_map snd (srun1 ops)
+  | S O => option_map snd (srun1 ops)
+  | _ => option_map (fun r => map proj_out (snd r)) (srun2 ops)
   end.
 
 Definition model_check (c : case) : bool :=
